@@ -1,8 +1,16 @@
 import GeosModel.Proofs.WKB.Depth
+import GeosModel.Proofs.Readers.WKBAlloc
+import GeosModel.Proofs.Readers.WKTSafe
+import GeosModel.Proofs.Readers.WKTDepth
 /-!
-# C11 (WKB / HEX reader part) — readers never crash, hang or touch memory out of bounds
+# C11 — readers never crash, hang or touch memory out of bounds: what is PROVED, and about what
 
-Contributed by the C09 builder; the C11 check (other readers, sanitizer streams) is owned elsewhere.
+Everything in this file is about the Lean reader MODELS; the C++ is tied to them by the correspondence streams of
+`checks/C09.py`, `checks/C10.py` and the sanitizer streams of `checks/C11.py` (runtime evidence, not proof).
+Memory safety of the models is by construction (they read through pattern matching on lists).  The GeoJSON reader
+is not modelled.
+
+Part 1 (namespace `C11.WKB`, by the C09 builder, extended here with the allocation upper bound):
 Model: `GeosModel.WKB.read` (`Model/WKB/Read.lean`) — total by construction (structural recursion on a
 fuel argument that is the recursion-depth budget), reading only through pattern matching on the remaining
 byte list (so "no out-of-bounds read" is a typing fact of the model) — plus the allocation accounting of
@@ -19,9 +27,16 @@ input size" clauses are false of the model of the current code):
 * `alloc_superlinear`   for every `d` an input of `9 d` bytes makes the reader request ≥ `4 d (d − 1)` bytes.
 Also: `empty_section_rejected`, `checkContig_nonempty`, `compound_sections_nonempty` — the former undefined behaviour in
 `CompoundCurve::validateConstruction` (fixed in /repo 82860eb92) is a clean reject and `front()/back()` only see non-empty sequences.
+Upper bounds matching the negative results: `alloc_le_depth` (a reader limited to `D` nested activations requests at most
+`4 D` bytes per input byte — with a depth limit the allocation clause would hold), `alloc_le_quadratic`, and
+`alloc_not_linear` (no constant `c` bounds allocation by `c ·` input length).
+
+Part 2 (namespace `C11.WKT`): the same for the WKT reader model — `wkt_read_never_out_of_fuel`, `wkt_depth_le`,
+`wkt_tokens_le_chars`, `tokenizer_fuel_irrelevant` (totality), `wkt_reject_or_wf`, `wkt_consumes`, and the negative
+`wkt_depth_unbounded` / `wkt_not_depthBounded`.
 -/
 namespace GeosModel.C11.WKB
-open GeosModel GeosModel.WKB
+open GeosModel GeosModel.WKB GeosModel.WKB.Alloc
 
 /-- **reject or well-formed**: a geometry returned by the WKB reader satisfies the invariants of all
 thirteen constructors (so writers and accessors applied to it are inside their preconditions). -/
@@ -135,9 +150,128 @@ theorem compound_sections_nonempty (arc : ArcOracle) (gs : List G) (h : WFG arc 
     | error e => simp [hx, errOk] at h
   exact checkContig_nonempty gs hc h2
 
+/-- **allocation ≤ 4 · depth · length**: a reader restricted to `D` nested `readGeometry` activations (`readGeom arc D`
+rejects anything deeper) requests at most `4 D` bytes per input byte — linear for a fixed depth limit -/
+theorem alloc_le_depth (arc : ArcOracle) (D : Nat) (o : Order) (bs : List UInt8) :
+    allocGeom arc D o bs ≤ 4 * D * bs.length := allocGeom_le D o bs
+
+/-- the unlimited reader requests at most `4 (n + 1) n` bytes on `n` input bytes (quadratic; by `alloc_superlinear`
+the exponent cannot be improved) -/
+theorem alloc_le_quadratic (arc : ArcOracle) (bs : List UInt8) :
+    allocOf arc bs ≤ 4 * (bs.length + 1) * bs.length := allocGeom_le (bs.length + 1) .le bs
+
+/-- **no constant multiple of the input size bounds the allocation** (the property's resource clause is false of the
+model of the current code); the constant ranges over everything below 10⁹ because element counts are 32-bit -/
+theorem alloc_not_linear (arc : ArcOracle) (c : Nat) (hc : c < 1000000000) :
+    ∃ bs : List UInt8, c * bs.length < allocOf arc bs := by
+  obtain ⟨bs, hl, ha⟩ := alloc_superlinear arc (3 * c + 2) (by omega)
+  refine ⟨bs, ?_⟩
+  rw [hl]
+  have h1 : c * (9 * (3 * c + 2)) = (3 * c + 2) * (9 * c) := by
+    rw [Nat.mul_comm c, Nat.mul_assoc, Nat.mul_comm (3 * c + 2) c, ← Nat.mul_assoc, Nat.mul_comm (9 * c)]
+  have h2 : 4 * (3 * c + 2) * (3 * c + 2 - 1) = (3 * c + 2) * (4 * (3 * c + 1)) := by
+    have : 3 * c + 2 - 1 = 3 * c + 1 := by omega
+    rw [this, Nat.mul_comm 4, Nat.mul_assoc]
+  have h3 : (3 * c + 2) * (9 * c) < (3 * c + 2) * (4 * (3 * c + 1)) :=
+    Nat.mul_lt_mul_of_pos_left (by omega) (by omega)
+  omega
+
+/-- the harness' witness families are the witnesses of the two negative theorems -/
+theorem wkbOver_eq : ∀ k, Readers.wkbOver k = over k
+  | 0 => rfl
+  | k + 1 => by
+    simp only [Readers.wkbOver, over, wkbOver_eq k]
+    rfl
+
+theorem gHas_nest : ∀ d, gHasZ (nestG d) = false ∧ gHasM (nestG d) = false
+  | 0 => by decide
+  | d + 1 => by
+    have ih := gHas_nest d
+    simp only [gHasZ, gHasM] at ih ⊢
+    simp [nestG, anySeq, anySeqs, ih.1, ih.2]
+
+theorem wkbNest_eq : ∀ d, Readers.wkbNest d = nestBytes d
+  | 0 => by decide
+  | d + 1 => by
+    have ih := wkbNest_eq d
+    have hz := gHas_nest d
+    simp only [nestBytes] at ih ⊢
+    simp only [nestG, collection_bytes, hz.1, hz.2, Readers.wkbNest, ih]
+    rfl
+
 /-! non-vacuity -/
 example : ∃ bs g, read (fun _ => false) bs = .ok g := by
   obtain ⟨bs, _, h, _⟩ := depth_unbounded (fun _ => false) 2
   exact ⟨bs, h⟩
 
 end GeosModel.C11.WKB
+
+/-! ## Part 2 — the WKT reader model -/
+namespace GeosModel.C11.WKT
+open GeosModel GeosModel.WKT GeosModel.Readers GeosModel.WKT.Safe GeosModel.WKT.Depth
+
+/-- **totality**: the fuel `readToks` supplies (3 · tokens + 4) is never exhausted -/
+theorem wkt_read_never_out_of_fuel (ts : List Tok) : readToks ts ≠ .error .fuel := by
+  have := readToks_good ts
+  cases h : readToks ts with
+  | ok g => simp
+  | error e => rw [h] at this; simpa using this
+
+/-- **reject or well-formed**: whatever the WKT reader returns satisfies the invariants of all thirteen constructors -/
+theorem wkt_reject_or_wf (ts : List Tok) (g : G) (h : readToks ts = .ok g) : WFT g = true := by
+  have := readToks_good ts
+  rw [h] at this
+  exact this
+
+/-- the same for character strings -/
+theorem wkt_string_reject_or_wf (s : String) (g : G) (h : GeosModel.WKT.read s = .ok g) : WFT g = true :=
+  wkt_reject_or_wf _ g h
+
+theorem wkt_string_never_out_of_fuel (s : String) : GeosModel.WKT.read s ≠ .error .fuel :=
+  wkt_read_never_out_of_fuel _
+
+/-- **depth ≤ 3 · tokens + 1**: with that many nested model activations allowed `readGeometryTaggedText` never
+needs another one (the model's sibling loops are recursive, so this over-approximates the C++ stack) -/
+theorem wkt_depth_le (f : Nat) (orig : Flags) (ek : EmptyKind) (ts : List Tok) (h : 3 * ts.length + 1 ≤ f) :
+    readTagged f orig ek ts ≠ .error .fuel := by
+  have := (cluster f).tagged orig ek ts h
+  cases hr : readTagged f orig ek ts with
+  | ok v => simp
+  | error e => rw [hr] at this; simpa using OKb_error.1 this
+
+/-- a successful (nested) read consumes at least the type keyword -/
+theorem wkt_consumes (f : Nat) (orig : Flags) (ek : EmptyKind) (ts ts' : List Tok) (g : G)
+    (hf : 3 * ts.length + 1 ≤ f) (h : readTagged f orig ek ts = .ok (g, ts')) : ts'.length < ts.length := by
+  have := (cluster f).tagged orig ek ts hf
+  rw [h] at this
+  exact this.1
+
+/-- at most one token per character, so all bounds above are bounds in the input length -/
+theorem wkt_tokens_le_chars (cs : List Char) : (tokenize cs).length ≤ cs.length := tokenize_length_le cs
+
+/-- the tokenizer's own fuel never binds (it is total on every character string) -/
+theorem tokenizer_fuel_irrelevant (f : Nat) (cs : List Char) (h : cs.length < f) : tokenizeF f cs = tokenize cs :=
+  tokenizeF_fuel f (cs.length + 1) cs h (Nat.lt_succ_self _)
+
+/-- "the nesting of the returned trees is bounded by the constant `D`" -/
+def DepthBounded (D : Nat) : Prop := ∀ ts g, readToks ts = .ok g → gcDepth g ≤ D
+
+/-- **no constant bounds the recursion depth**: `d` nested `GEOMETRYCOLLECTION (` … `)` around `POINT (1 2)` —
+3 d + 5 tokens, 20 d + 10 characters as the harness writes them — are accepted and come back as a tree nested `d` deep
+(one `readGeometryTaggedText → readGeometryCollectionText` activation pair of the C++ per level) -/
+theorem wkt_depth_unbounded (d : Nat) :
+    ∃ ts : List Tok, ts.length = 3 * d + 5 ∧ ∃ g, readToks ts = .ok g ∧ gcDepth g = d :=
+  ⟨nestToks d, nestToks_length d, nestG d, readToks_nest d, gcDepth_nest d⟩
+
+theorem wkt_not_depthBounded (D : Nat) : ¬ DepthBounded D := by
+  intro h
+  have := h (nestToks (D + 1)) (nestG (D + 1)) (readToks_nest (D + 1))
+  rw [gcDepth_nest] at this
+  omega
+
+/-! non-vacuity: the witness is accepted; an ill-formed tree exists (so `WFT` is not trivially true) -/
+example : ∃ ts g, readToks ts = .ok g := ⟨nestToks 1, nestG 1, readToks_nest 1⟩
+example : WFT (.lineString ⟨false, false, [⟨0, 0, nanBits, nanBits⟩]⟩) = false := by decide
+example : WFT (.compoundCurve [.lineString ⟨false, false, []⟩, .lineString ⟨false, false, [⟨0, 0, nanBits, nanBits⟩, ⟨1, 1, nanBits, nanBits⟩]⟩]) = false := by decide
+
+end GeosModel.C11.WKT
